@@ -44,6 +44,9 @@ def setup_env() -> Path:
     import logging
 
     logging.lastResort = logging.NullHandler()  # codemodder logs exceptions it handles
+    import warnings
+
+    warnings.filterwarnings("ignore", category=SyntaxWarning)
     base = Path(os.environ.get("VERIF_TMP_BASE", "/var/tmp"))
     base.mkdir(parents=True, exist_ok=True)
     d = Path(tempfile.mkdtemp(prefix="verif-", dir=str(base)))
